@@ -472,8 +472,16 @@ func (e *Engine) verify(key string, c *Contract) *Unit {
 				u.reject("contract error: %v", err)
 				continue
 			}
-			u.oblige(r.st, "post", fmt.Sprint(i+1), t, fd.Pos())
-			u.obls[len(u.obls)-1].Where = c.Ensures[i].Where + " (return path " + fmt.Sprint(ri+1) + ": " + strings.Join(r.st.trace, ",") + ")"
+			// split  A ==> (B && C)  into one obligation per conjunct: finer names, smaller queries
+			parts := splitGoal(t)
+			for pi, pt := range parts {
+				lbl := fmt.Sprint(i + 1)
+				if len(parts) > 1 {
+					lbl = fmt.Sprintf("%d.%d", i+1, pi+1)
+				}
+				u.oblige(r.st, "post", lbl, pt, fd.Pos())
+				u.obls[len(u.obls)-1].Where = c.Ensures[i].Where + " (return path " + fmt.Sprint(ri+1) + ": " + strings.Join(r.st.trace, ",") + ")"
+			}
 		}
 		for i, cv := range c.Covers {
 			t, err := u.specBool(penv, cv)
@@ -539,4 +547,30 @@ func (e *Engine) verify(key string, c *Contract) *Unit {
 	}
 	// user covers: at least one return must satisfy each cover clause -> combined later by name
 	return u
+}
+
+
+// splitGoal turns (=> A (and B C ...)) / (and B C ...) into separate goals.
+func splitGoal(t Term) []Term {
+	n := parseSx(t)
+	if n == nil || n.kids == nil || len(n.kids) == 0 || n.kids[0].kids != nil {
+		return []Term{t}
+	}
+	switch n.kids[0].atom {
+	case "and":
+		var out []Term
+		for _, k := range n.kids[1:] {
+			out = append(out, splitGoal(k.String())...)
+		}
+		return out
+	case "=>":
+		if len(n.kids) == 3 {
+			var out []Term
+			for _, c := range splitGoal(n.kids[2].String()) {
+				out = append(out, tImp(n.kids[1].String(), c))
+			}
+			return out
+		}
+	}
+	return []Term{t}
 }
